@@ -170,6 +170,11 @@ def call_pyobj(ex, obj, args, kwargs, st, fr, n):
         return b_int(ex, args, kwargs, st)
     if obj is _b.str:
         v = args[0]
+        if isinstance(v, VOpt):
+            return ex.branch(v.isnone, st, lambda s: ex.val(VStr('None', 'str'), s),
+                             lambda s: call_pyobj(ex, obj, [v.val] + args[1:], kwargs, s, fr, n))
+        if isinstance(v, VNone):
+            return ex.val(VStr('None', 'str'), st)
         if isinstance(v, VInt):
             return ex.val(VStr(int_to_dec(ex, v.t), 'str'), st)
         if isinstance(v, VStr) and v.kind == 'str':
@@ -193,6 +198,13 @@ def call_pyobj(ex, obj, args, kwargs, st, fr, n):
     if isinstance(obj, type) and issubclass(obj, BaseException):
         return ex.val(VExc(obj), st)
     # repository functions and classes
+    if inspect.ismethod(obj) and isinstance(obj.__self__, type) and (obj.__module__ or '').startswith('proxy'):
+        q = '%s.%s' % (ex.owner_of(obj.__self__, obj.__name__).__name__, obj.__name__)
+        c = ex.reg.contracts.get(q)
+        if c is not None:
+            return call_contract(ex, c, None, None, None, args, kwargs, st, fr)
+        return call_function(ex, obj.__func__, [VPy(obj.__self__)] + args, kwargs, st, fr, what=q,
+                             owner=ex.owner_of(obj.__self__, obj.__name__))
     if inspect.isfunction(obj) and (mod or '').startswith('proxy'):
         q = obj.__qualname__
         return call_function(ex, obj, args, kwargs, st, fr, what=q)
